@@ -11,7 +11,7 @@ Writes patch.diff, the demo, notes.md (the author's description) and meta.json.
 """
 import json, os, re, shutil, subprocess, sys, tempfile
 
-ENV = dict(os.environ, GOFLAGS="-mod=mod", GOPROXY="off", GOSUMDB="off", GOTOOLCHAIN="local")
+ENV = dict(os.environ, GOFLAGS="-mod=mod -trimpath", GOPROXY="off", GOSUMDB="off", GOTOOLCHAIN="local")
 ENV.pop("GOWORK", None)
 PROPS = ["C%02d" % i for i in range(1, 21)]
 
@@ -211,4 +211,6 @@ def main():
 
 
 if __name__ == "__main__":
-    sys.exit(main())
+    rc = main()
+    subprocess.run("/verif/tools/trimcache.sh 40", shell=True)  # (many seedkeep runs share one cache: trim late)
+    sys.exit(rc)
